@@ -582,6 +582,304 @@ fn rpc_tables(repo: &str) -> R<String> {
     Ok(out)
 }
 
+// ---------------------------------------------------------------------------------------
+// Parser tables (parser.rs): tag_parser! instances and look_ahead_parser! sets
+// ---------------------------------------------------------------------------------------
+
+fn rust_ident(s: &str) -> String {
+    s.trim_start_matches("r#").to_string()
+}
+
+fn parser_tables(repo: &str) -> R<String> {
+    let parser = parse_file(&format!("{}/spl_frontend/src/parser.rs", repo))?;
+    // tag parsers: module -> [(fn name, TokenType variant)]
+    let mut tags: BTreeMap<String, String> = BTreeMap::new(); // fn name -> variant
+    let mut tag_list: Vec<(String, String, String)> = vec![];
+    for m in ["literals", "keywords", "symbols", "markers"] {
+        let items = find_mod(&parser, m).ok_or(format!("mod {} not found", m))?;
+        for it in items {
+            if let Item::Macro(mac) = it {
+                if mac.mac.path.segments.last().unwrap().ident == "tag_parser" {
+                    let toks = mac.mac.tokens.to_string();
+                    // `name , TokenType :: Variant` or `name , TokenType :: Variant (_)`
+                    let (name, pat) = toks.split_once(',').ok_or("tag_parser! shape")?;
+                    let name = rust_ident(name.trim().replace(' ', "").as_str());
+                    let variant = pat
+                        .replace(' ', "")
+                        .strip_prefix("TokenType::")
+                        .ok_or("tag_parser! pattern is not a TokenType variant")?
+                        .split('(')
+                        .next()
+                        .unwrap()
+                        .to_string();
+                    if !KINDS.contains(&variant.as_str()) {
+                        return Err(format!("tag_parser!: unknown TokenType::{}", variant));
+                    }
+                    tags.insert(name.clone(), variant.clone());
+                    tag_list.push((m.to_string(), name, variant));
+                }
+            }
+        }
+    }
+    // look-ahead sets
+    let la_items = find_mod(&parser, "look_ahead").ok_or("mod look_ahead not found")?;
+    let mut sets: Vec<(String, Vec<String>)> = vec![];
+    let set_names = ["global_dec", "stmt", "var_dec", "param_dec", "arg"];
+    fn la_item(e: &Expr, tags: &BTreeMap<String, String>, set_names: &[&str]) -> R<String> {
+        match e {
+            Expr::Path(p) => {
+                let last = rust_ident(&p.path.segments.last().unwrap().ident.to_string());
+                if p.path.segments.len() == 1 && set_names.contains(&last.as_str()) {
+                    Ok(format!(".sub .{}", last))
+                } else if let Some(v) = tags.get(&last) {
+                    Ok(format!(".tok .{}", v))
+                } else {
+                    Err(format!("look_ahead: unknown parser {}", last))
+                }
+            }
+            Expr::Call(c) => {
+                // pair(|input| Identifier::parse(None, input), alt((a, b, ...)))
+                let f = quote::ToTokens::to_token_stream(&*c.func).to_string();
+                if f != "pair" || c.args.len() != 2 {
+                    return Err(format!("look_ahead: unrecognised call {}", f));
+                }
+                let first = quote::ToTokens::to_token_stream(&c.args[0]).to_string().replace(' ', "");
+                if !first.contains("Identifier::parse(None,input)") {
+                    return Err("look_ahead: pair() does not start with Identifier::parse".into());
+                }
+                let mut ks = vec![];
+                if let Expr::Call(a) = &c.args[1] {
+                    if let Some(Expr::Tuple(t)) = a.args.first() {
+                        for el in &t.elems {
+                            if let Expr::Path(p) = el {
+                                let last = rust_ident(&p.path.segments.last().unwrap().ident.to_string());
+                                ks.push(format!(".{}", tags.get(&last).ok_or(format!("look_ahead: unknown parser {}", last))?));
+                            } else {
+                                return Err("look_ahead: alt element".into());
+                            }
+                        }
+                    }
+                }
+                if ks.is_empty() {
+                    return Err("look_ahead: pair() second component".into());
+                }
+                Ok(format!(".identThen [{}]", ks.join(", ")))
+            }
+            _ => Err("look_ahead: unrecognised item".into()),
+        }
+    }
+    for it in la_items {
+        if let Item::Macro(mac) = it {
+            if mac.mac.path.segments.last().unwrap().ident == "look_ahead_parser" {
+                let args = mac
+                    .mac
+                    .parse_body_with(syn::punctuated::Punctuated::<Expr, syn::Token![,]>::parse_terminated)
+                    .map_err(|e| format!("look_ahead_parser!: {}", e))?;
+                let mut it = args.iter();
+                let name = match it.next() {
+                    Some(Expr::Path(p)) => p.path.segments.last().unwrap().ident.to_string(),
+                    _ => return Err("look_ahead_parser!: name".into()),
+                };
+                if !set_names.contains(&name.as_str()) {
+                    return Err(format!("look_ahead_parser!: unknown set {}", name));
+                }
+                let mut items = vec![];
+                for e in it {
+                    items.push(la_item(e, &tags, &set_names)?);
+                }
+                sets.push((name, items));
+            }
+        }
+    }
+    if sets.len() != set_names.len() {
+        return Err(format!("expected {} look-ahead sets, found {}", set_names.len(), sets.len()));
+    }
+    let mut out = String::new();
+    out.push_str("-- GENERATED by /verif/harness `extract` from /repo/spl_frontend/src/parser.rs — do not edit.\n");
+    out.push_str("import SplVerif.Model.ParserTypes\nnamespace Spl.Gen\n\n");
+    out.push_str("/-- every `tag_parser!(name, TokenType::X)` instance: (module, name, X) -/\n");
+    out.push_str("def tagParsers : List (String × String × Kind) := [\n");
+    out.push_str(&tag_list.iter().map(|(m, n, v)| format!("  ({}, {}, .{})", lean_str(m), lean_str(n), v)).collect::<Vec<_>>().join(",\n"));
+    out.push_str("]\n\n");
+    out.push_str("def lookAheadSet : LAName → List LAItem\n");
+    for (n, items) in &sets {
+        writeln!(out, "  | .{} => [{}]", n, items.join(", ")).unwrap();
+    }
+    out.push_str("\nend Spl.Gen\n");
+    Ok(out)
+}
+
+// ---------------------------------------------------------------------------------------
+// Builtin table (table/initialization.rs)
+// ---------------------------------------------------------------------------------------
+
+fn expr_str_const(e: &Expr, consts: &BTreeMap<String, String>) -> Option<String> {
+    // `NAME.to_string()` | `"lit".to_string()` | `"lit"`
+    match e {
+        Expr::MethodCall(m) if m.method == "to_string" => expr_str_const(&m.receiver, consts),
+        Expr::Path(p) => consts.get(&p.path.segments.last()?.ident.to_string()).cloned(),
+        Expr::Lit(l) => match &l.lit {
+            syn::Lit::Str(s) => Some(s.value()),
+            _ => None,
+        },
+        _ => None,
+    }
+}
+
+fn builtin_tables(repo: &str) -> R<String> {
+    let file = parse_file(&format!("{}/spl_frontend/src/table/initialization.rs", repo))?;
+    let mut consts: BTreeMap<String, String> = BTreeMap::new();
+    let mut defaults: Vec<String> = vec![];
+    for item in &file.items {
+        if let Item::Const(c) = item {
+            if let Expr::Lit(l) = &*c.expr {
+                if let syn::Lit::Str(s) = &l.lit {
+                    consts.insert(c.ident.to_string(), s.value());
+                }
+            }
+        }
+    }
+    for item in &file.items {
+        if let Item::Const(c) = item {
+            if c.ident == "DEFAULT_ENTRIES" {
+                if let Expr::Array(a) = &*c.expr {
+                    for e in &a.elems {
+                        defaults.push(expr_str_const(e, &consts).ok_or("DEFAULT_ENTRIES element")?);
+                    }
+                }
+            }
+        }
+    }
+    if defaults.is_empty() {
+        return Err("DEFAULT_ENTRIES not found".into());
+    }
+    let f = find_fn_in_impl(&file, "GlobalTable", None, "initialized").ok_or("GlobalTable::initialized not found")?;
+    // find `HashMap::from([ ... ])`
+    struct FindArr(Option<syn::ExprArray>);
+    impl<'ast> syn::visit::Visit<'ast> for FindArr {
+        fn visit_expr_call(&mut self, c: &'ast syn::ExprCall) {
+            let f = quote::ToTokens::to_token_stream(&*c.func).to_string().replace(' ', "");
+            if f == "HashMap::from" {
+                if let Some(Expr::Array(a)) = c.args.first() {
+                    self.0 = Some(a.clone());
+                    return;
+                }
+            }
+            syn::visit::visit_expr_call(self, c);
+        }
+    }
+    let mut fa = FindArr(None);
+    syn::visit::Visit::visit_impl_item_fn(&mut fa, f);
+    let arr = fa.0.ok_or("HashMap::from([...]) not found")?;
+    let mut procs: Vec<(String, String, Vec<(String, bool)>)> = vec![];
+    let mut has_int = false;
+    for el in &arr.elems {
+        let t = match el {
+            Expr::Tuple(t) if t.elems.len() == 2 => t,
+            _ => return Err("builtin entry is not a pair".into()),
+        };
+        let key = expr_str_const(&t.elems[0], &consts).ok_or("builtin key")?;
+        match &t.elems[1] {
+            Expr::Call(c) => {
+                let fname = quote::ToTokens::to_token_stream(&*c.func).to_string().replace(' ', "");
+                if fname == "procedure_entry" {
+                    if c.args.len() != 3 {
+                        return Err("procedure_entry arity".into());
+                    }
+                    // Identifier::new(NAME.to_string(), 0..0)
+                    let name = match &c.args[0] {
+                        Expr::Call(ic) => expr_str_const(ic.args.first().ok_or("Identifier::new")?, &consts).ok_or("builtin name")?,
+                        _ => return Err("builtin name shape".into()),
+                    };
+                    if name != key {
+                        return Err(format!("builtin {}: key and name differ", key));
+                    }
+                    let docs = expr_str_const(&c.args[1], &consts).ok_or("builtin doc")?;
+                    let mut params = vec![];
+                    match &c.args[2] {
+                        Expr::Macro(m) => {
+                            let elems = m
+                                .mac
+                                .parse_body_with(syn::punctuated::Punctuated::<Expr, syn::Token![,]>::parse_terminated)
+                                .map_err(|e| format!("vec!: {}", e))?;
+                            for pe in elems.iter() {
+                                if let Expr::Struct(st) = pe {
+                                    let mut pname = None;
+                                    let mut is_ref = None;
+                                    let mut is_int = false;
+                                    for fld in &st.fields {
+                                        let fname = quote::ToTokens::to_token_stream(&fld.member).to_string();
+                                        match fname.as_str() {
+                                            "name" => {
+                                                if let Expr::Call(ic) = &fld.expr {
+                                                    pname = expr_str_const(ic.args.first().ok_or("param name")?, &consts);
+                                                }
+                                            }
+                                            "is_ref" => {
+                                                if let Expr::Lit(l) = &fld.expr {
+                                                    if let syn::Lit::Bool(b) = &l.lit {
+                                                        is_ref = Some(b.value);
+                                                    }
+                                                }
+                                            }
+                                            "data_type" => {
+                                                is_int = quote::ToTokens::to_token_stream(&fld.expr).to_string().replace(' ', "") == "Some(DataType::Int)";
+                                            }
+                                            _ => {}
+                                        }
+                                    }
+                                    if !is_int {
+                                        return Err(format!("builtin {}: parameter type is not int", key));
+                                    }
+                                    params.push((pname.ok_or("param name")?, is_ref.ok_or("param is_ref")?));
+                                } else {
+                                    return Err("builtin parameter shape".into());
+                                }
+                            }
+                        }
+                        _ => return Err("builtin parameters shape".into()),
+                    }
+                    procs.push((key, docs, params));
+                } else if fname == "GlobalEntry::Type" {
+                    if key != "int" {
+                        return Err(format!("unexpected builtin type {}", key));
+                    }
+                    has_int = true;
+                } else {
+                    return Err(format!("builtin entry constructor {}", fname));
+                }
+            }
+            _ => return Err("builtin entry value shape".into()),
+        }
+    }
+    if !has_int {
+        return Err("builtin type int not found".into());
+    }
+    let mut out = String::new();
+    out.push_str("-- GENERATED by /verif/harness `extract` from /repo/spl_frontend/src/table/initialization.rs — do not edit.\n");
+    out.push_str("namespace Spl.Gen\n\n");
+    out.push_str("def defaultEntries : List String := [");
+    out.push_str(&defaults.iter().map(|d| lean_str(d)).collect::<Vec<_>>().join(", "));
+    out.push_str("]\n\n/-- predefined procedures: (name, documentation, parameters as (name, is_ref)); all parameters are `int` -/\n");
+    out.push_str("def builtinProcs : List (String × String × List (String × Bool)) := [\n");
+    out.push_str(
+        &procs
+            .iter()
+            .map(|(n, d, ps)| {
+                format!(
+                    "  ({}, {}, [{}])",
+                    lean_str(n),
+                    lean_str(d),
+                    ps.iter().map(|(pn, r)| format!("({}, {})", lean_str(pn), r)).collect::<Vec<_>>().join(", ")
+                )
+            })
+            .collect::<Vec<_>>()
+            .join(",\n"),
+    );
+    out.push_str("]\n\nend Spl.Gen\n");
+    Ok(out)
+}
+
 fn write_if_changed(path: &str, content: &str) {
     if fs::read_to_string(path).map(|old| old == content).unwrap_or(false) {
         return;
@@ -594,7 +892,7 @@ fn main() {
     let repo = args.get(1).map(|s| s.as_str()).unwrap_or("/repo");
     let out_dir = args.get(2).map(|s| s.as_str()).unwrap_or("/verif/lean/SplVerif/Gen");
     let mut failed = false;
-    let tables: Vec<(&str, fn(&str) -> R<String>)> = vec![("LexTables", lex_tables), ("RpcTables", rpc_tables)];
+    let tables: Vec<(&str, fn(&str) -> R<String>)> = vec![("LexTables", lex_tables), ("RpcTables", rpc_tables), ("ParserTables", parser_tables), ("Builtins", builtin_tables)];
     for (name, f) in tables {
         match f(repo) {
             Ok(content) => write_if_changed(&format!("{}/{}.lean", out_dir, name), &content),
